@@ -178,6 +178,29 @@ pub fn run(a: &Args) {
         check::<uuid::Uuid>(o, r, "uuid::Uuid", uuids);
         let times = vec![chrono::DateTime::from_timestamp(0, 0).unwrap(), chrono::DateTime::from_timestamp((r.next() % 4_000_000_000) as i64, (r.next() % 1_000_000_000) as u32).unwrap()];
         check::<chrono::DateTime<chrono::Utc>>(o, r, "chrono::DateTime<Utc>", times);
+        // heapless 0.8 and nalgebra 0.33 integrations
+        {
+            let mut hv: heapless08::Vec<u32, 5> = heapless08::Vec::new();
+            let _ = hv.push(7);
+            let _ = hv.push(u32::MAX);
+            let mut full: heapless08::Vec<u32, 5> = heapless08::Vec::new();
+            for i in 0..5 {
+                let _ = full.push(i * 1000);
+            }
+            check::<heapless08::Vec<u32, 5>>(o, r, "heapless08::Vec<u32,5>", vec![heapless08::Vec::new(), hv, full]);
+            let mut hp: heapless08::Vec<(u16, bool), 3> = heapless08::Vec::new();
+            let _ = hp.push((9, true));
+            check::<heapless08::Vec<(u16, bool), 3>>(o, r, "heapless08::Vec<(u16,bool),3>", vec![heapless08::Vec::new(), hp]);
+            let mut hs: heapless08::String<16> = heapless08::String::new();
+            let _ = hs.push_str("héllo");
+            check::<heapless08::String<16>>(o, r, "heapless08::String<16>", vec![heapless08::String::new(), hs]);
+            check::<heapless08::String<0>>(o, r, "heapless08::String<0>", vec![heapless08::String::new()]);
+            check::<nalgebra::SMatrix<u8, 3, 3>>(o, r, "nalgebra::SMatrix<u8,3,3>", vec![nalgebra::SMatrix::<u8, 3, 3>::new(1, 2, 3, 4, 5, 6, 7, 8, 9), nalgebra::SMatrix::<u8, 3, 3>::zeros()]);
+            check::<nalgebra::SMatrix<i16, 2, 3>>(o, r, "nalgebra::SMatrix<i16,2,3>", vec![nalgebra::SMatrix::<i16, 2, 3>::new(-1, 2, i16::MIN, 4, i16::MAX, 6)]);
+            check::<nalgebra::SMatrix<f32, 1, 1>>(o, r, "nalgebra::SMatrix<f32,1,1>", vec![nalgebra::SMatrix::<f32, 1, 1>::new(1.5)]);
+            check::<nalgebra::SMatrix<u64, 4, 1>>(o, r, "nalgebra::SMatrix<u64,4,1>", vec![nalgebra::SMatrix::<u64, 4, 1>::new(0, 1, u64::MAX, 300)]);
+            check::<Option<nalgebra::SMatrix<u16, 2, 2>>>(o, r, "Option<nalgebra::SMatrix<u16,2,2>>", vec![None, Some(nalgebra::SMatrix::<u16, 2, 2>::new(1, 2, 3, 65535))]);
+        }
         check::<postcard_schema::key::Key>(o, r, "Key", vec![postcard_schema::key::Key::for_path::<u8>("a"), postcard_schema::key::Key::for_path::<Nested>("topic/x")]);
         // the schema-of-schema kind: schemas are themselves values with a schema
         let trees: Vec<ST> = (0..6).map(|i| crate::stree::gen_tree(r, 1 + i % 4)).collect();
@@ -186,5 +209,5 @@ pub fn run(a: &Args) {
         check::<Option<Vec<(String, Mixed<u8>)>>>(o, r, "Option<Vec<(String,Mixed<u8>)>>", vec![None, Some(vec![]), Some(vec![("k".into(), Mixed::S { a: Some(3), b: [1, 2] }), ("".into(), Mixed::U)])]);
         check::<Gen1<Vec<E2>>>(o, r, "Gen1<Vec<E2>>", vec![Gen1 { x: vec![E2::A, E2::B { x: 1, y: -1 }], y: None }, Gen1 { x: vec![], y: Some(vec![E2::A]) }]);
     }
-    o.finish(&a.summary, "built-in Schema impls (integers, NonZero*, floats, bool, char, unit, str/String/PathBuf, Option, Result, references, arrays, slices/Vec/sets, maps, tuples 1-6, ranges, heapless 0.7, uuid, chrono, Key, the schema types themselves) and types using the WORKSPACE derive (unit / newtype / tuple / named / empty / generic / nested structs; enums mixing the four variant forms, 1..129 variants) x candidate values covering every variant; each value's serde call tree is captured by a recording serializer and checked against T::SCHEMA by an independent conformance function, by the model's `conforms`, and by the model's schema-driven reader on the real bytes followed by a random suffix; distinct = distinct (type, candidate)");
+    o.finish(&a.summary, "built-in Schema impls (integers, NonZero*, floats, bool, char, unit, str/String/PathBuf, Option, Result, references, arrays, slices/Vec/sets, maps, tuples 1-6, ranges, heapless 0.7 and 0.8, nalgebra 0.33 matrices, uuid, chrono, Key, the schema types themselves) and types using the WORKSPACE derive (unit / newtype / tuple / named / empty / generic / nested structs; enums mixing the four variant forms, 1..129 variants) x candidate values covering every variant; each value's serde call tree is captured by a recording serializer and checked against T::SCHEMA by an independent conformance function, by the model's `conforms`, and by the model's schema-driven reader on the real bytes followed by a random suffix; distinct = distinct (type, candidate)");
 }
